@@ -78,6 +78,14 @@ func vNewWriteRun(c *vCase, variety bool) *vWriteRun {
 	period := vPick(r, 10*time.Microsecond, 6400*time.Nanosecond, 1280*time.Nanosecond)
 	viperResetForFeed()
 	ds := vNewAnySource(w.nchan, period)
+	if vChance(r, 0.5) {
+		// a sample rate whose period is not a whole number of ns (as real cards have): the sources keep the
+		// exact rate and a ns-rounded period side by side; headers must state the true one
+		ds.sampleRate = vPick(r, 245000.0, 125e6/1024, 99999.7, 781250.0/3)
+		ds.samplePeriod = time.Duration(roundint(1e9 / ds.sampleRate))
+		period = ds.samplePeriod
+		c.Cov("fractional_ns_sample_period", 1)
+	}
 	if err := ds.PrepareChannels(); err != nil {
 		c.Inconclusive("setup", "%v", err)
 		return nil
